@@ -194,7 +194,7 @@ def addrMain : IO UInt32 := do
     let c : Gen.AddrForms.VarCtx := ⟨vla, loc, pic, tls, fn, d⟩
     let form := match addrForm c with
       | some .rbpRel => "rbpRel" | some .rbpLoad => "rbpLoad" | some .ripRel => "ripRel" | some .got => "got"
-      | some .tlsGD => "tlsGD" | some .tlsLE => "tlsLE" | none => "unknown"
+      | some .tlsGD => "tlsGD" | some .tlsLE => "tlsLE" | some .tlsIE => "tlsIE" | none => "unknown"
     let ok := match addrForm c with
       | some f => Spec.Linkage.validForm (Spec.Linkage.refCtxOf c) f
       | none => false
